@@ -110,7 +110,9 @@ def _nth_s($n; f): if $n < 0 then error(\"nth doesn't support negative indices\"
 def _reverse_s: if type == \"array\" then [.[length - 1 - range(0;length)]] else _unmodelled end;
 def _flatten_s: _flatten(1);
 def _flatten1_s($x): if $x < 0 then _unmodelled else _flatten($x) end;
-def _modify_s(paths; update): [path(paths)] as $ps | reduce $ps[] as $p (.; . as $x | label $out | (setpath($p; $x | getpath($p) | update) | ., break $out), setpath($p; null));
+def _oob_neg($x; $p): any(range(0; $p | length); . as $n | ($p[$n] | type) == \"number\" and $p[$n] < 0 and ($x | getpath($p[:$n]) | type) == \"array\" and (($x | getpath($p[:$n]) | length) + $p[$n]) < 0);
+def _modify_lazy(paths; update): reduce path(paths) as $p (.; . as $x | label $out | (setpath($p; $x | getpath($p) | update) | ., break $out), setpath($p; null));
+def _modify_s(paths; update): (try {ok: [path(paths)]} catch {err: .}) as $r | if $r | has(\"ok\") then ($r.ok as $ps | reduce $ps[] as $p (.; . as $x | if ($p | length) > 0 and ($p[-1] | type) == \"object\" and ($x | getpath($p[:-1]) | type) == \"string\" then error(\"Cannot update string slices\") elif _oob_neg($x; $p) then error(\"Out of bounds negative array index\") else label $out | (setpath($p; $x | getpath($p) | update) | ., break $out), setpath($p; null) end)) elif $r.err == null then _unmodelled else (try (_nohalt(_modify_lazy(paths; update)) | {ok: .}) catch {err: .}) as $q | if ($q | has(\"err\")) and $q.err == $r.err then error($r.err) else _unmodelled end end;
 def _modify_alt_s(paths; $v): (try [path(paths)] catch \"__err__\") as $ps | if $ps == \"__err__\" then _unmodelled else _modify_s(paths; . // $v) end;
 def _split_s($x): if . == \"\" then _unmodelled else _split_j($x) end;
 def _trim_s: if type == \"string\" then _trim_j else _unmodelled end;
